@@ -30,7 +30,9 @@ type c01Case struct {
 	Dump string `json:"dump,omitempty"`
 }
 
-var c01Atoms = []string{"<", ">", "&", "'", "\"", "<b>", "&amp;", "&lt;", "a", "b", "x", " ", "é", "日", "\x00", "</script>", "&#34;", "1<2", "x&y"}
+var c01Atoms = []string{"<", ">", "&", "'", "\"", "<b>", "&amp;", "&lt;", "a", "b", "x", " ", "é", "日", "\x00", "</script>", "&#34;", "1<2", "x&y",
+	// the beginning of a multi-byte character without its end (a string cut at a byte offset)
+	"\xc3", "\xe6\x97", "\xf0\x9f"}
 
 func genSpecialString(t *rapid.T, label string) string {
 	n := rapid.IntRange(0, 6).Draw(t, label+"N")
@@ -132,6 +134,15 @@ func (g *c01Gen) valueExpr(scopeNames []string) (*mj.Expr, mj.Recipe, string) {
 }
 
 func (g *c01Gen) renderSite(scopeNames []string) *mj.Node {
+	if g.n(0, 11, "stringerSlot") == 0 {
+		// a value in a slot of type fmt.Stringer / error whose dynamic type is a Renderer as well
+		g.nvar++
+		name := fmt.Sprintf("sh%d", g.nvar)
+		g.p.Vars[name] = mj.Recipe{T: "strholder", S: genSpecialString(g.t, "shs")}
+		e := []*mj.Expr{mj.Chain(mj.Var(name), "Label"), mj.Chain(mj.Var(name), "Err"), {K: "index", A: mj.Chain(mj.Var(name), "List"), B2: mj.Num(float64(g.n(0, 1, "shIdx")))}}[g.n(0, 2, "shSlot")]
+		g.sites = append(g.sites, "var:strholder:")
+		return mj.Print(e)
+	}
 	e, r, src := g.valueExpr(scopeNames)
 	stage := []string{"", "", "", "upper", "html", "raw", "unsafe", "safeHtml", "safeJs", "swCustom", "raw-prefix", "upper|raw", "lower|safeHtml"}[g.n(0, 12, "pipeline")]
 	isString := r.T == "string" || r.T == "longstring" || r.T == "straddle" || e.K == "str" || (r.T == "scoped" && len(scopeNames) == 1 && strings.HasPrefix(scopeNames[0], "lv"))
@@ -367,7 +378,7 @@ func judgeC01(c c01Case) (v core.Verdict) {
 		v.Label("after-an-execution-into-a-broken-destination")
 	}
 	for _, r := range c.Prog.Vars {
-		if strings.ContainsAny(r.S, "<>&'\"") || r.T == "level" || r.T == "code" || r.T == "renderer-write" || r.T == "nil*user" || r.T == "nilfunc" {
+		if strings.ContainsAny(r.S, "<>&'\"") || r.T == "level" || r.T == "code" || r.T == "renderer-write" || r.T == "nil*user" || r.T == "nilfunc" || r.T == "strholder" {
 			special = true
 		}
 		if r.T == "longstring" || r.T == "straddle" {
